@@ -8,7 +8,7 @@ switch on a value whose provenance has no decision yet simply forks.
 """
 from .prov import (
     mk_field, mk_vfield, mk_phi, ckey, call_fn, subterms, term_str,
-    IDENT0, UNWRAP_OK, UNWRAP_SOME, CLONE, TAKE, WRAP, MAPERR, RESOK, UNWRAP_OR, BOXLIKE,
+    IDENT0, UNWRAP_OK, UNWRAP_SOME, CLONE, TAKE, WRAP, MAPERR, RESOK, UNWRAP_OR, BOXLIKE, LOCKS,
 )
 from .program import Site
 
@@ -188,6 +188,8 @@ class PathEnum:
         ck = site.ck
         if args:
             a0 = args[0]
+            if ck in LOCKS:
+                return ("lockres", a0)
             if ck in MAPERR and len(args) == 2:
                 return ("maperr", a0, args[1])
             if ck in RESOK:
